@@ -44,6 +44,8 @@ class Register:
             raise JaqalError(
                 f"Illegal size specification in map statement defining {name}."
             )
+        if size is not None and not isinstance(size, (int, float, AnnotatedValue)):
+            raise JaqalError(f"Invalid size {size} for register {name}.")
         if isinstance(size, (int, float)) and (size != int(size) or size < 1):
             raise JaqalError(f"Invalid size {size} for register {name}.")
         if isinstance(size, AnnotatedValue) and size.kind == ParamType.FLOAT:
